@@ -68,7 +68,6 @@ import (
 	"strings"
 	"time"
 
-	record "github.com/libp2p/go-libp2p-record"
 	recpb "github.com/libp2p/go-libp2p-record/pb"
 	ci "github.com/libp2p/go-libp2p/core/crypto"
 	"github.com/libp2p/go-libp2p/core/peer"
@@ -93,6 +92,7 @@ func init() {
 				"probe_history_replay_valid_for_other_key", "probe_history_replay_rejected_elsewhere_valid_here", "probe_history_replay_same_key_still_valid",
 				"probe_history_replay_same_key_expired_since", "probe_history_replay_verbatim_record", "probe_history_pk_other_identity_key_after_its_search",
 				"probe_history_answered_after_search_end", "probe_history_getpublickey",
+				"probe_key_outside_namespaces", "probe_key_outside_record_acceptable_to_unregistered_validator",
 				"probe_opt_offline", "probe_opt_expired", "probe_opt_offline_local_not_valid", "probe_local_never_valid", "probe_local_outlived_max_age", "probe_stamp_valid_value_held_past_requesters_max_age", "probe_stamp_valid_value_from_the_future", "probe_stamp_valid_value_unparsable"},
 		})
 	}
@@ -101,6 +101,7 @@ func init() {
 // c04HKey is one key of a history's pool.
 type c04HKey struct {
 	Key   string
+	Class int          // c04Key*: where the key lies relative to the configured validator's namespaces
 	PK    *c04PK       // "/pk/<id>" of this identity (nil: a rank-validator key)
 	Peer  *simnet.Peer // the identity's own node
 	Local []byte       // the record the client stores under this key (nil: none)
@@ -197,25 +198,11 @@ func (h *c04Hist) carriedOver(w *c04World, val []byte) bool {
 
 // c04NSValidate / c04NSSelect: the validator in force for a key, by namespace,
 // as configured on the clients (c04Opts next to the default /pk validator).
-func c04NSValidate(rv rankValidator) func(string, []byte) error {
-	pkv := record.PublicKeyValidator{}
-	return func(key string, val []byte) error {
-		if strings.HasPrefix(key, "/pk/") {
-			return pkv.Validate(key, val)
-		}
-		return rv.Validate(key, val)
-	}
-}
+// It is a real record.NamespacedValidator of the harness' own making (c04NSV):
+// for a key outside its namespaces it rejects every value.
+func c04NSValidate(rv rankValidator) func(string, []byte) error { return c04NSV(rv).Validate }
 
-func c04NSSelect(rv rankValidator) func(string, [][]byte) (int, error) {
-	pkv := record.PublicKeyValidator{}
-	return func(key string, vals [][]byte) (int, error) {
-		if strings.HasPrefix(key, "/pk/") {
-			return pkv.Select(key, vals)
-		}
-		return rv.Select(key, vals)
-	}
-}
+func c04NSSelect(rv rankValidator) func(string, [][]byte) (int, error) { return c04NSV(rv).Select }
 
 // histPutLocal stores a record under hk.Key through the public API while the
 // client has nobody to talk to: valid for the whole run, or expiring after a
@@ -452,6 +439,13 @@ func c04RunHistory(s *sim.Sim, variant string) {
 	for i := 0; i < nRank; i++ {
 		h.keys = append(h.keys, &c04HKey{Key: fmt.Sprintf("/r/key-%d-%c", kn, 'a'+i)})
 	}
+	if s.Chance("key-outside", 1, 4) {
+		// one key of the pool lies outside the configured validator's namespaces
+		// (c04_wave6.go): what earlier searches accepted for the other keys is
+		// replayed for it, and nothing of it may come out
+		class := 1 + s.Draw("key-class", c04KeyClasses-1)
+		h.keys = append(h.keys, &c04HKey{Key: c04KeyOfClass(class, kn), Class: class})
+	}
 	// populations (dual: WAN and LAN, either may be empty)
 	h.plain = [][]*simnet.Peer{real}
 	if variant == "dual" {
@@ -584,7 +578,7 @@ func c04RunHistory(s *sim.Sim, variant string) {
 			cancelAt = s.Range("cancel-at", 1, 30)
 		}
 		linger := s.Chance("caller-keeps-context", 1, 3)
-		w.cfg.Key, w.cfg.Other, w.cfg.Search, w.cfg.Quorum = hk.Key, other.Key, opk == opSearch, quorum
+		w.cfg.Key, w.cfg.Other, w.cfg.Search, w.cfg.Quorum, w.cfg.KeyClass = hk.Key, other.Key, opk == opSearch, quorum, hk.Class
 		if other == hk {
 			w.cfg.Other = fmt.Sprintf("/r/other-%d", kn)
 		}
@@ -608,6 +602,9 @@ func c04RunHistory(s *sim.Sim, variant string) {
 		ctx, cancel := context.WithCancel(sim.WithTag(context.Background(), fmt.Sprintf("s%d", i)))
 		opts := w.cfg.routingOpts()
 		if opk != opPK {
+			if hk.Class != c04KeyRegistered && hk.Class != c04KeyRegisteredEmpty {
+				s.Count("probe_key_outside_namespaces")
+			}
 			if w.cfg.Offline {
 				s.Count("probe_opt_offline")
 			}
